@@ -105,6 +105,12 @@ add('C07',
     'Equations and fixed-point machinery only; soundness w.r.t. executions additionally depends on the CFG (C05) and the scope analysis (C08).',
     'DESIGN.md section 4, C07')
 
+add('C08',
+    'exhaustiveness of binding constructs against the identifier fields of the interpreter grammar; CFG must-pass-through counting of Scope-set updates per binding handler; structural extraction of the context table of _track_symbol; dominance of default visits over the annotations-only switch; set-algebra evaluation of Scope.finalize and Scope.free_vars to membership formulas with truth-table bounds; sibling agreement of copy_from / merge_from; ASDL field-type interpretation of activity.py and qual_names.py',
+    'Decides the mechanism by which the analysis follows Python\'s binding rules: every binding construct (def/class names, import aliases, parameters of all five kinds, global/nonlocal declarations, Name/Attribute/Subscript targets, unpacking) is recorded in the right sets on every path; Store/Load/Del/AugAssign table; defaults visited in the defining scope before annotations-only mode; blocks export read/modified/bound minus isolated names plus declarations, functions export exactly their free names including nonlocal-declared ones; free_vars has the same formula; state reset and merge of parallel blocks agree; field types respected.',
+    'Does not compare with symtable on programs; comprehension targets and except-clause names are set aside by the property.',
+    'DESIGN.md section 4, C08')
+
 NOT_APPLICABLE = {
     'C12': 'quantifies over run-time tracebacks, generated line layout and source-map contents, which exist only after the pipeline has run on a program; the only shape-level clause (exception re-creation table) is too small a part to claim the property through (DESIGN.md section 5)',
 }
